@@ -327,7 +327,8 @@ pub fn write_line_of_code_with_optional_path_and_line_number(
         config,
     );
 
-    if !line.is_empty() || !file_with_line_number.is_empty() {
+    // (With style sections the line is a line of grep output: an empty one is still shown.)
+    if !line.is_empty() || !file_with_line_number.is_empty() || style_sections.is_some() {
         write_to_output_buffer(
             &file_with_line_number,
             file_path_separator,
